@@ -1,3 +1,4 @@
+import re
 """check functions usable as pool jobs: (driver, payload, **kw) -> Outcome"""
 import symdb
 
@@ -31,6 +32,14 @@ def c_prog(driver, prog, target="sql.sqlite", k=2, timeout_ms=20000, schema=None
         elif getattr(o, "kind", "") == "arity" and getattr(o2, "kind", "") != "arity":
             o = o2          # both readings fail: report the closer one
     o.features = sorted(getattr(prog, "features", set()) | {"target:" + target})
+    if o.status == "violation" and getattr(o, "kind", "") == "result" and re.search(r"\b(INTERSECT|EXCEPT)\b", getattr(o, "sql", "") or ""):
+        # the recognised set operations are known to differ from the join on NULL keys and on duplicate rows; ask again on
+        # instances without either, so that a different defect of such a program is not hidden behind that finding
+        o2 = symdb.check_program(prog, driver, target=target, k=k, timeout_ms=timeout_ms, schema=schema, extra_pre=symdb.clean_data_pre)
+        if o2.status == "violation":
+            o2.features = sorted(set(o.features) | {"clean-data"})
+            o2.detail = "(on an instance without NULLs and without repeated values in any column) " + str(getattr(o2, "detail", ""))
+            return o2
     return o
 
 
